@@ -3,6 +3,7 @@ package main
 import (
 	"fmt"
 	"math/rand/v2"
+	"strings"
 	"time"
 )
 
@@ -167,6 +168,13 @@ func (sc *scenario) randomClear(cn *conn, r *rand.Rand) {
 	var userID, id string
 	if len(cands) > 0 {
 		s := cands[len(cands)-1-r.IntN(min(len(cands), 12))]
+		if variant == "id" && r.IntN(2) == 0 {
+			for _, c := range cands {
+				if strings.HasPrefix(c.ID, "shared-") {
+					s = c
+				}
+			}
+		}
 		userID = s.Conn
 		id, _ = s.knownID()
 	}
@@ -343,10 +351,10 @@ func (sc *scenario) runSize() {
 	if sc.bad {
 		return
 	}
-	sc.join(S, g)
-	sc.join(S2, g)
-	sc.join(W, g)
-	sc.join(X, sc.groups[1])
+	if !(sc.join(S, g) && sc.join(S2, g) && sc.join(W, g) && sc.join(X, sc.groups[1])) {
+		sc.abort()
+		return
+	}
 	total := 60 + r.IntN(61)
 	sent := 0
 	for sent < total && !sc.bad {
@@ -401,10 +409,16 @@ func (sc *scenario) runClear() {
 		return
 	}
 	for _, cn := range []*conn{O, A, B, W} {
-		sc.join(cn, g)
+		if !sc.join(cn, g) {
+			sc.abort()
+			return
+		}
 	}
-	sc.join(O2, g1)
-	sc.join(C, g1)
+	if !(sc.join(O2, g1) && sc.join(C, g1)) {
+		sc.abort()
+		return
+	}
+	talks := 0
 	talk := func() {
 		for _, cn := range []*conn{A, B, O, C} {
 			for i, n := 0, 2+r.IntN(4); i < n; i++ {
@@ -415,15 +429,13 @@ func (sc *scenario) runClear() {
 				sc.send(cn, o)
 			}
 		}
-		if r.IntN(2) == 0 {
-			o := sc.plain(B, r)
-			o.id = "dup-id" // same id, other user
+		// the same id used by two users: a clearchat of (id, user) must only hit one of them
+		talks++
+		for _, cn := range []*conn{B, A, O} {
+			o := sc.plain(cn, r)
+			o.id = fmt.Sprintf("dup-%d", talks)
 			o.srcClass = "own"
-			sc.send(B, o)
-			o2 := sc.plain(A, r)
-			o2.id = "dup-id"
-			o2.srcClass = "own"
-			sc.send(A, o2)
+			sc.send(cn, o)
 		}
 	}
 	look := func() {
@@ -455,6 +467,13 @@ func (sc *scenario) runClear() {
 				continue
 			}
 			s := cands[len(cands)-1-r.IntN(min(len(cands), 8))]
+			if r.IntN(3) > 0 {
+				for _, c := range cands {
+					if strings.HasPrefix(c.ID, "dup-") && c.conn != O {
+						s = c
+					}
+				}
+			}
 			id, _ := s.knownID()
 			sc.clear(O, "id", s.Conn, id, tagged)
 		case "user":
@@ -467,7 +486,7 @@ func (sc *scenario) runClear() {
 			talk()
 			continue
 		case "bad":
-			sc.clear(O, "bad", "", "dup-id", tagged)
+			sc.clear(O, "bad", "", "dup-1", tagged)
 		case "all":
 			sc.clear(O, "all", "", "", tagged)
 		}
@@ -493,9 +512,10 @@ func (sc *scenario) runAge() {
 	if sc.bad {
 		return
 	}
-	sc.join(S, g)
-	sc.join(W, g)
-	sc.join(X, g1)
+	if !(sc.join(S, g) && sc.join(W, g) && sc.join(X, g1)) {
+		sc.abort()
+		return
+	}
 	say := func(cn *conn, n int) {
 		for i := 0; i < n; i++ {
 			o := sc.plain(cn, r)
@@ -534,10 +554,16 @@ func (sc *scenario) runMatrix() {
 		return
 	}
 	for _, cn := range []*conn{V, W, D} {
-		sc.join(cn, g)
+		if !sc.join(cn, g) {
+			sc.abort()
+			return
+		}
 		cn.strict = true
 	}
-	sc.join(F, g1)
+	if !sc.join(F, g1) {
+		sc.abort()
+		return
+	}
 	F.strict = true
 	for _, typ := range []string{"chat", "usermessage"} {
 		for _, addressed := range []bool{false, true} {
@@ -549,6 +575,7 @@ func (sc *scenario) runMatrix() {
 					user := pick(r, []string{"mike", "mona", "paul"})
 					cn := sc.connect(user, -1)
 					if cn == nil || !sc.join(cn, g) {
+						sc.abort()
 						return
 					}
 					victim := V
